@@ -255,7 +255,8 @@ WellTyped(t, v) ==
 (*     the same tree shapes, with leaves  [c |-> "p", py |-> Python class, x |-> name of the exact       *)
 (*     object, x32 |-> name of the object rounded to float32]  and, for n-d arrays, dt |-> numpy dtype.   *)
 LeafEq(k, x, w) ==
-  /\ w.c = "p" /\ w.py \in PyClasses(k)
+  /\ w.c = "p"
+  /\ w.py \in PyClasses(k) \/ (x = "int1" /\ w.py = "int")      \* the Python int 1 given as a float may stay the int 1
   /\ CASE k = "float32" -> w.x32 = R32(x)
        [] k = "float64" -> w.x = Canon(x)
        [] OTHER         -> w.x = x
@@ -329,7 +330,6 @@ NdTypes == IF WithNd THEN {TNd(P(k), n) : k \in Numeric, n \in 0 .. 3} ELSE {}
 Special == {TTup(Wide9), TStruct(Names9, Wide9)}
 K1 == {P("int32")}
 K2 == {P("int32"), P("str")}
-K4 == {P("int32"), P("float64"), P("str"), P("call")}
 \* depth 2: one construction of every kind around each selected depth-1 type
 Over2(S) ==
   LET HS == {x \in S : Hashable(x)} IN
@@ -340,9 +340,13 @@ Over2(S) ==
   \cup {TIv(e) : e \in HS}
 T1Full == Over(D0, D0) \cup NdTypes \cup Special
 T1Mid  == Over(D0, K2) \cup NdTypes \cup Special
-T1Tiny == Over(K4, K1) \cup {t \in NdTypes : t.e.k = "float64" /\ t.n = 2}
+\* quick tier: one depth-1 type of every kind is wrapped once more
+T1Tiny == {TArr(P("float64")), TArr(P("call")), TSet(P("str")), TDict(P("str"), P("float64")), TDict(P("int32"), P("str")),
+           TTup(<<>>), TTup(<<P("float64"), P("str")>>), TStruct(<<>>, <<>>), TStruct(<<"a">>, <<P("float64")>>),
+           TStruct(<<"sp", "uni">>, <<P("bool"), P("int64")>>), TIv(P("float64")), TIv(P("int32"))}
+          \cup {t \in NdTypes : t.e.k = "float64" /\ t.n = 2}
 T1 == IF Level = 0 THEN T1Mid ELSE T1Full
-T2 == IF Level = 0 THEN Over2(T1Tiny) ELSE Over2(T1Mid) \cup Over(T1Tiny, K2)
+T2 == IF Level = 0 THEN Over2(T1Tiny) ELSE Over2(T1Mid)
 CoreTypes == D0 \cup T1 \cup T2
 
 \* NOTE for TLC: zero-arity constant definitions are evaluated when the module is loaded, by every module that
@@ -366,7 +370,7 @@ SelfTypes == D0 \cup T1
 SelfCheck(dummy) ==
   /\ \A t \in CoreTypes : IsType(t) /\ Depth(t) <= 2
   /\ \A t \in SelfTypes : \A v \in Opt(Vals(t, 2)) : WellTyped(t, v) /\ Match(t, v, Echo(t, v))
-  /\ \A t \in {u \in SelfTypes : ~HasNd(u)} : \A v \in Opt(Vals(t, 2)) : \A u \in Opt(Vals(t, 2)) :
+  /\ \A t \in {u \in SelfTypes : ~HasNd(u)} : \A v \in Opt(Vals(t, 1)) : \A u \in Opt(Vals(t, 1)) :
         Match(t, v, Echo(t, u)) => Key(t, u) = Key(t, v)
   /\ PrintT(<<"selfcheck", Cardinality(CoreTypes), Cardinality(SelfTypes)>>)
 
